@@ -1,90 +1,164 @@
 """C10 — DecisionTreeLogisticRegression is a consistent tree of binary classifiers.
 
-  C10.a  one routing predicate: the four sites that split rows (predict_proba,
-         decision_path, fit, fit_improve) compute, after canonicalisation, the
-         same predicate prob[:, 1] > self.threshold and its complement; the two
-         read-side traversals guard the recursion identically
-  C10.b  gather/scatter pairing in the traversals; decision_path marks the
-         node's own index for exactly the indices it was given, before routing
-  C10.c  depth and indices: child depth = self.depth + 1 after the max_depth
-         guard; first child index self.index + 1, second last + 1; the returned
-         value is the last index handed out; n_nodes_ = that + 1
-  C10.d  predict = classes_ taken at (prob[:, 1] >= 0.5); the positive class at
-         fit is classes_[1]; every node classifier is a clone
+All clauses are decided on *expanded* expressions (temporaries, loop variables
+and simple private helpers are normalised away by engine.expand; a comparison
+and the negation of its opposite have one normal form) and on path conditions
+computed over the CFG (engine.guards).  Renaming locals, inlining or introducing
+temporaries, extracting a helper such as `_split_rows`, passing arguments by
+keyword or turning nested ifs into (merged) guard clauses does not change a
+verdict.
+
+  C10.a  one routing predicate: every comparison against self.threshold in the
+         node class is, in normal form, `self.threshold < P[:, 1]` or its exact
+         complement `P[:, 1] <= self.threshold`; each of the four routing sites
+         (predict_proba, decision_path, fit, fit_improve) computes both sides on
+         the same P; the two read-side traversals use this node's classifier on
+         the rows given and recurse into a child iff it exists and receives rows,
+         with exactly the rows of its side
+  C10.b  gather/scatter pairing (def-use signatures); decision_path marks the
+         node's own column for exactly the row ids it was given, unconditionally;
+         children receive the shared matrix and the ids of their rows; public
+         decision_path allocates n_nodes_ columns and ids 0..n-1
+  C10.c  depth and indices: children are built with depth self.depth + 1 only
+         where the depth guard holds; first child index self.index + 1, second =
+         (last index of the first subtree) + 1; fit returns the last index of the
+         second subtree; n_nodes_ = root's last index + 1; terminal test
+  C10.d  predict = classes_ taken at [P(class 1) >= 0.5]; the positive class at
+         fit is classes_[1]; classes_ are the sorted labels
 """
 
 from __future__ import annotations
 
 import ast
-from typing import Dict, List, Optional
+from typing import Dict, List, Optional, Tuple
 
 from engine.src import FunctionInfo, own_nodes, own_nodes_incl_lambda, src_of, AnalysisError
-from engine.util import is_self_attr, kwarg, enclosing_tests, enclosing_stmt
 from engine import norm
+from engine.guards import cond_text
 from .pairing_rules import check_scatter, check_coindex
+from .sem import expander, ctext, want, bind, nested_functions, returns, conds_at, calls, self_attr_value_texts, stmt_of
 
 RULES = {
-    "C10.a": "the four routing sites compute the same canonical predicate and complement; read-side recursion guards agree",
-    "C10.b": "gather/scatter pairing in predict_proba/decision_path; the node's own index is marked for the given indices before routing",
-    "C10.c": "child depth/index arithmetic and the max_depth guard; n_nodes_ = last index + 1",
-    "C10.d": "predict/classes_ agreement (threshold 0.5, positive class classes_[1]); node classifiers are clones",
+    "C10.a": "every comparison with self.threshold is `self.threshold < P[:, 1]` or its exact complement (expanded normal form), both sides per routing site on one P; read-side recursion iff child exists and receives rows, with its side's rows",
+    "C10.b": "gather/scatter pairing in the traversals; own column marked unconditionally for the ids given; children get the ids of their rows; n_nodes_ columns",
+    "C10.c": "child depth/index arithmetic under the max_depth guard (path conditions); n_nodes_ = last index + 1; terminal-node test",
+    "C10.d": "predict/classes_ agreement (0.5 on column 1, positive class classes_[1])",
 }
 
 MOD = "mlinsights.mlmodel.decision_tree_logreg"
 NODE = "_DecisionTreeLogisticRegressionNode"
+SITES = ("predict_proba", "decision_path", "fit", "fit_improve")
+P_READ = "self.estimator.predict_proba(X)"
 
 
-def _assign(fn: ast.AST, name: str) -> List[ast.Assign]:
-    out = [s for s in own_nodes(fn) if isinstance(s, ast.Assign) and len(s.targets) == 1 and src_of(s.targets[0]) == name]
-    out.sort(key=lambda s: s.lineno)
+def _direct_threshold(c: ast.Compare) -> bool:
+    """self.threshold occurs in the comparison outside any nested comparison"""
+    stack = [c.left] + list(c.comparators)
+    while stack:
+        n = stack.pop()
+        if isinstance(n, ast.Compare):
+            continue
+        if isinstance(n, ast.Attribute) and src_of(n) == "self.threshold":
+            return True
+        stack.extend(ast.iter_child_nodes(n))
+    return False
+
+
+def _threshold_comparisons(repo, fi: FunctionInfo) -> List[Tuple[ast.AST, str]]:
+    """normal forms of every expression of `fi` that evaluates a comparison with
+    self.threshold (directly, through a local or through a simple helper)"""
+    ex = expander(repo)
+    out, seen = [], set()
+    for n in own_nodes_incl_lambda(fi.node):
+        if not isinstance(n, (ast.Compare, ast.UnaryOp, ast.Name, ast.Call)):
+            continue
+        if isinstance(n, ast.Name) and not isinstance(n.ctx, ast.Load):
+            continue
+        st = stmt_of(n)
+        try:
+            x = norm.canon(ex.norm_expr(n, fi, st), rename=False)
+        except Exception:
+            continue
+        if not (isinstance(x, ast.Compare) and len(x.ops) == 1 and _direct_threshold(x)):
+            continue
+        t = ast.unparse(x)
+        if t not in seen:
+            seen.add(t)
+            out.append((n, t))
     return out
+
+
+def _col1(s: ast.AST) -> bool:
+    sl = s.slice if isinstance(s, ast.Subscript) else None
+    return isinstance(sl, ast.Tuple) and len(sl.elts) == 2 and isinstance(sl.elts[0], ast.Slice) and sl.elts[0].lower is None and sl.elts[0].upper is None and sl.elts[0].step is None and isinstance(sl.elts[1], ast.Constant) and sl.elts[1].value == 1
+
+
+def _classify(t: str) -> Optional[Tuple[str, str]]:
+    """('above'|'below', P) for the two accepted normal forms"""
+    e = ast.parse(t, mode="eval").body
+    if isinstance(e, ast.Compare) and len(e.ops) == 1:
+        l, r, op = e.left, e.comparators[0], e.ops[0]
+        if isinstance(op, ast.Lt) and ast.unparse(l) == "self.threshold" and _col1(r):
+            return ("above", ast.unparse(r.value))
+        if isinstance(op, ast.LtE) and ast.unparse(r) == "self.threshold" and _col1(l):
+            return ("below", ast.unparse(l.value))
+    return None
+
+
+def _mask(repo, side: str, fi, at, P: str = P_READ) -> str:
+    return want(repo, f"{P}[:, 1] > self.threshold" if side == "above" else f"{P}[:, 1] <= self.threshold", fi, at)
+
+
+def _receives_rows(conds, mask: str) -> bool:
+    s = f"({mask}).sum()"
+    ok = {cond_text(f"{s} > 0"), cond_text(f"{s} >= 1"), cond_text(f"{s} == 0", False), cond_text(s), cond_text(f"({mask}).any()")}
+    return any(c in conds for c in ok)
 
 
 def check_a(ck, repo):
     ci = repo.cls(MOD, NODE)
-    sites = {}
-    for m in ("predict_proba", "decision_path", "fit", "fit_improve"):
-        fi = ci.methods.get(m)
-        if fi is None:
+    for m in SITES:
+        if m not in ci.methods:
             raise AnalysisError(f"anchor vanished: {NODE}.{m}")
-        ab, be = _assign(fi.node, "above"), _assign(fi.node, "below")
-        if len(ab) != 1 or len(be) != 1:
-            ck.unknown("C10.a", fi, "above = ...; below = ...", f"routing masks not found ({len(ab)}, {len(be)})")
+    for m, fi in ci.methods.items():
+        cmps = _threshold_comparisons(repo, fi)
+        if not cmps:
+            if m in SITES:
+                ck.violated("C10.a", fi, f"{m}: routing predicate", f"{m} no longer compares the probability with self.threshold: rows are routed by another rule than at the other sites")
             continue
-        sites[m] = (fi, ab[0], be[0])
-    ref = "prob[:, 1] > self.threshold"
-    want = norm.dump(ast.parse(ref, mode="eval").body, rename=False)
-    for m, (fi, ab, be) in sites.items():
-        got = norm.dump(ab.value, rename=False)
-        ck.verdict(got == want, "C10.a", fi, ab, "routing predicate is prob[:, 1] > self.threshold (canonical form)", f"{m} routes rows with {src_of(ab.value)!r}; the other traversals use {ref!r}: rows follow different paths at fit, predict and decision_path (ties at the threshold included)")
-        comp = src_of(be.value) in ("~above", "numpy.logical_not(above)") or norm.dump(be.value, rename=False) == norm.dump(ast.parse("prob[:, 1] <= self.threshold", mode="eval").body, rename=False)
-        ck.verdict(comp, "C10.a", fi, be, "the other side is the exact complement", f"{m}: 'below' is {src_of(be.value)!r}, not the complement of 'above': some rows go to both sides or to none")
-        # prob comes from this node's estimator on the rows at hand
-        pr = _assign(fi.node, "prob")
-        if m in ("predict_proba", "decision_path"):
-            ck.verdict(len(pr) == 1 and src_of(pr[0].value) == "self.estimator.predict_proba(X)", "C10.a", fi, pr[0] if pr else "prob = ...", "probabilities of this node's classifier on the rows given", f"{m}: prob is {src_of(pr[0].value) if pr else None}")
-    # read-side recursion guards
-    guards = {}
+        sides: Dict[str, str] = {}
+        for node, t in cmps:
+            k = _classify(t)
+            if k is None:
+                ck.violated("C10.a", fi, stmt_of(node), f"{m} routes rows with `{t}`; every site must use `self.threshold < P[:, 1]` and its exact complement `P[:, 1] <= self.threshold`: rows (ties at the threshold included) follow different paths at fit, predict and decision_path")
+            else:
+                sides[k[0]] = k[1]
+                ck.holds("C10.a", fi, f"{m}: {t}", f"routing predicate in normal form ({k[0]})")
+        if set(sides) == {"above", "below"}:
+            ck.verdict(sides["above"] == sides["below"], "C10.a", fi, f"{m}: both sides on P = {sides['above'][:60]}", "the two sides are complements on the same probabilities", f"{m}: 'above' is computed on {sides['above']} but 'below' on {sides['below']}")
+            if m in ("predict_proba", "decision_path"):
+                ck.verdict(sides["above"] == P_READ, "C10.a", fi, f"{m}: P = {sides['above']}", "probabilities of this node's classifier on the rows given", f"{m} routes with {sides['above']}, not with {P_READ}")
+        elif sides and m in SITES:
+            ck.violated("C10.a", fi, f"{m}: sides {sorted(sides)}", f"{m} computes only the {sorted(sides)} side from the threshold: the other side is not its exact complement")
+    # read-side recursion
+    ex = expander(repo)
     for m in ("predict_proba", "decision_path"):
-        if m not in sites:
-            continue
-        fi = sites[m][0]
-        g = []
-        for s in own_nodes(fi.node):
-            if isinstance(s, ast.If):
-                body_calls = [c for c in ast.walk(s) if isinstance(c, ast.Call) and isinstance(c.func, ast.Attribute) and c.func.attr == m]
-                if body_calls:
-                    g.append((src_of(s.test), src_of(body_calls[0].func.value)))
-        guards[m] = sorted(g)
-        want_g = sorted([("self.above is not None and n_above > 0", "self.above"), ("self.below is not None and n_below > 0", "self.below")])
-        ck.verdict(sorted(g) == want_g, "C10.a", fi, f"recursion guards {g}", "recursion into a child iff it exists and receives rows", f"{m}: recursion guards are {g}, expected {want_g}")
-        for side in ("above", "below"):
-            cnt = _assign(fi.node, f"n_{side}")
-            ck.verdict(len(cnt) == 1 and src_of(cnt[0].value) == f"{side}.sum()", "C10.a", fi, cnt[0] if cnt else f"n_{side} = {side}.sum()", f"n_{side} counts the rows routed {side}", f"{m}: n_{side} is not {side}.sum()")
-    if len(guards) == 2:
-        a = [(t, r) for t, r in guards["predict_proba"]]
-        b = [(t, r) for t, r in guards["decision_path"]]
-        ck.verdict(a == b, "C10.a", sites["decision_path"][0], "sibling guards", "predict_proba and decision_path recurse under identical guards", f"guards differ: {a} vs {b}")
+        fi = ci.methods[m]
+        rec = calls(fi, lambda c: isinstance(c.func, ast.Attribute) and c.func.attr == m and src_of(c.func.value) in ("self.above", "self.below"))
+        ck.verdict(sorted(src_of(c.func.value) for c in rec) == ["self.above", "self.below"], "C10.a", fi, f"{m}: {len(rec)} recursive calls", "one recursive call per child", f"{m} does not recurse exactly once into each of self.above and self.below")
+        for c in rec:
+            side = src_of(c.func.value).split(".")[1]
+            b = bind(c, fi.named_params[1:])
+            x = b.get(fi.named_params[1])
+            arg0 = ex.text(x, fi, c) if x is not None else ""
+            mask = _mask(repo, side, fi, c)
+            ck.verdict(arg0 == ctext(f"X[{mask}]"), "C10.a", fi, c, f"child '{side}' receives exactly the rows routed {side}", f"child '{side}' receives {arg0}, expected X[{mask}]")
+            conds = conds_at(repo, fi, c)
+            exists = cond_text(f"self.{side} is not None") in conds
+            nonempty = _receives_rows(conds, mask)
+            ck.verdict(exists and nonempty, "C10.a", fi, f"{m}: guard of child '{side}'", "recursion iff the child exists and receives at least one row", f"{m}: the call into child '{side}' is not guarded by exactly (child exists) and (at least one row routed {side}); conditions on every path to it: {sorted(conds)}")
+            extra = [c_ for c_ in conds if c_ != cond_text(f"self.{side} is not None") and not _receives_rows([c_], mask)]
+            ck.verdict(not extra, "C10.a", fi, f"{m}: no further condition on child '{side}'", "no other condition prunes the traversal", f"{m}: the call into child '{side}' is also conditioned by {extra}: predict_proba and decision_path may stop at different nodes")
 
 
 def check_b(ck, repo):
@@ -94,114 +168,193 @@ def check_b(ck, repo):
     n += check_coindex(ck, "C10.b", repo, dp, methods={"decision_path"}, min_args=2)
     if n < 4:
         ck.violated("C10.b", pp, "prob[mask] = child.predict_proba(X[mask]) / child.decision_path(X[mask], mat, indices[mask])", f"only {n} of the 4 gather/scatter pairs of the traversals were found")
-    # mark own index first
-    body = [s for s in dp.node.body if not (isinstance(s, ast.Expr) and isinstance(s.value, ast.Constant))]
-    first = body[0] if body else None
-    ck.verdict(first is not None and src_of(first) == "mat[indices, self.index] = 1", "C10.b", dp, first if first is not None else "mat[indices, self.index] = 1", "the node marks its own column for exactly the rows it was given, before routing", "decision_path does not start by marking mat[indices, self.index] = 1")
-    for side in ("above", "below"):
-        d = _assign(dp.node, f"indices_{side}")
-        ck.verdict(len(d) == 1 and src_of(d[0].value) == f"indices[{side}]", "C10.b", dp, d[0] if d else f"indices_{side} = indices[{side}]", f"row ids sent {side} are the ids of the rows sent {side}", f"indices_{side} is not indices[{side}]")
-        calls = [c for c in own_nodes_incl_lambda(dp.node) if isinstance(c, ast.Call) and src_of(c.func) == f"self.{side}.decision_path"]
-        ck.verdict(len(calls) == 1 and [src_of(a) for a in calls[0].args] == [f"X[{side}]", "mat", f"indices_{side}"], "C10.b", dp, calls[0] if calls else f"self.{side}.decision_path(...)", f"child {side} receives its rows, the shared matrix and their ids", f"child {side} is called with {[src_of(a) for a in calls[0].args] if calls else None}")
-    # public decision_path: matrix of n_nodes_ columns and arange indices
+    ex = expander(repo)
+    p_mat, p_ids = dp.named_params[2], dp.named_params[3]
+    marks = [s for s in own_nodes(dp.node) if isinstance(s, (ast.Assign, ast.AugAssign)) and any(isinstance(t, ast.Subscript) and src_of(t.value) == p_mat for t in (s.targets if isinstance(s, ast.Assign) else [s.target]))]
+    okm = False
+    if len(marks) == 1 and isinstance(marks[0], ast.Assign):
+        sl = marks[0].targets[0].slice
+        okm = isinstance(sl, ast.Tuple) and len(sl.elts) == 2 and ex.text(sl.elts[0], dp, marks[0]) == p_ids and ex.text(sl.elts[1], dp, marks[0]) == "self.index" and ex.text(marks[0].value, dp, marks[0]) in ("1", "True")
+        okm = okm and not conds_at(repo, dp, marks[0])
+    ck.verdict(okm, "C10.b", dp, marks[0] if len(marks) == 1 else f"{p_mat}[{p_ids}, self.index] = 1", "the node marks its own column for exactly the rows it was given, on every path", f"decision_path does not unconditionally mark {p_mat}[{p_ids}, self.index] = 1 (and nothing else): the path of some rows misses this node or marks other rows")
+    rec = calls(dp, lambda c: isinstance(c.func, ast.Attribute) and c.func.attr == "decision_path" and src_of(c.func.value) in ("self.above", "self.below"))
+    for c in rec:
+        side = src_of(c.func.value).split(".")[-1]
+        b = bind(c, dp.named_params[1:])
+        a = {k: ex.text(v, dp, c) for k, v in b.items()}
+        mask = _mask(repo, side, dp, c)
+        ck.verdict(a.get(p_mat) == p_mat and a.get(p_ids) == ctext(f"{p_ids}[{mask}]"), "C10.b", dp, c, f"child {side} gets the shared matrix and the ids of its own rows", f"child {side} is called with {a}: the row ids do not follow the rows")
     pub = repo.cls(MOD, "DecisionTreeLogisticRegression").methods["decision_path"]
-    t = [src_of(s) for s in own_nodes(pub.node) if isinstance(s, (ast.Assign, ast.Expr, ast.Return))]
-    ck.verdict(any("sparse.lil_matrix((X.shape[0], self.n_nodes_)" in x for x in t) and "self.tree_.decision_path(X, mat, numpy.arange(X.shape[0]))" in t, "C10.b", pub, "mat = lil_matrix((n, n_nodes_)); tree_.decision_path(X, mat, arange(n))", "one column per node, row ids 0..n-1", "public decision_path does not allocate (n_rows, n_nodes_) or does not start from arange(n_rows)")
+    cc = calls(pub, lambda c: src_of(c.func) == "self.tree_.decision_path")
+    ok = False
+    if len(cc) == 1:
+        b = bind(cc[0], dp.named_params[1:])
+        a = {k: ex.text(v, pub, cc[0]) for k, v in b.items()}
+        ok = a.get(dp.named_params[1]) == "X" and a.get(p_mat, "").replace("scipy.sparse.", "sparse.").startswith("sparse.lil_matrix((X.shape[0], self.n_nodes_)") and a.get(p_ids) == "numpy.arange(X.shape[0])"
+    ck.verdict(ok, "C10.b", pub, cc[0] if cc else "self.tree_.decision_path(X, mat, arange(n))", "one column per node, row ids 0..n-1", "public decision_path does not start the traversal with an (n_rows, n_nodes_) matrix and ids arange(n_rows)")
+
+
+def _ctor_of(x: ast.AST) -> bool:
+    return isinstance(x, ast.Call) and ast.unparse(x.func) == NODE
 
 
 def check_c(ck, repo):
     ci = repo.cls(MOD, NODE)
     fit = ci.methods["fit"]
-    side = repo.nested(fit, "_fit_side")
-    # guard before any child creation
-    ifs = [s for s in fit.node.body if isinstance(s, ast.If)]
-    g = [s for s in ifs if src_of(s.test) == "self.depth + 1 > dtlr.max_depth"]
-    ok = len(g) == 1 and len(g[0].body) == 1 and src_of(g[0].body[0]) == "return self.index"
-    ck.verdict(ok, "C10.c", fit, g[0].test if g else "if self.depth + 1 > dtlr.max_depth: return self.index", "no child is created when it would exceed max_depth", "the max_depth guard `self.depth + 1 > dtlr.max_depth -> return self.index` is missing or altered: the tree can be deeper than max_depth")
-    if g:
-        calls = [c for c in own_nodes_incl_lambda(fit.node) if isinstance(c, ast.Call) and src_of(c.func) == "_fit_side"]
-        ck.verdict(bool(calls) and all(c.lineno > g[0].lineno for c in calls), "C10.c", fit, "_fit_side calls after the depth guard", "children are only built after the guard", "a child is built before the depth guard")
-    # min_samples_split guard
-    g2 = [s for s in ifs if src_of(s.test) == "X.shape[0] < dtlr.min_samples_split"]
-    ck.verdict(len(g2) == 1 and src_of(g2[0].body[0]) == "return self.index", "C10.c", fit, g2[0].test if g2 else "if X.shape[0] < dtlr.min_samples_split", "no split below min_samples_split", "the min_samples_split guard is missing or altered")
-    # child construction
-    ctor = [c for c in own_nodes_incl_lambda(side.node) if isinstance(c, ast.Call) and src_of(c.func) == NODE]
-    if len(ctor) != 1:
-        ck.unknown("C10.c", side, f"{NODE}(...)", "child construction not found")
+    init = ci.methods["__init__"]
+    ipar = init.named_params[1:]
+    ex = expander(repo)
+    nested = nested_functions(repo, fit)
+    ctor_sites = [(f, c) for f in [fit] + nested for c in calls(f, lambda c: src_of(c.func) == NODE)]
+    if len(ctor_sites) not in (1, 2):
+        ck.unknown("C10.c", fit, f"{NODE}(...)", f"{len(ctor_sites)} child constructions found in fit")
+        return
+    for f, c in ctor_sites:
+        b = bind(c, ipar)
+        t = {k: ex.text(v, f, c) for k, v in b.items()}
+        ck.verdict(t.get("depth") == ctext("self.depth + 1"), "C10.c", f, f"depth={t.get('depth')}", "child depth is parent depth + 1", "child depth is not self.depth + 1: tree_depth_ and the max_depth guard no longer describe the tree")
+        ck.verdict(t.get("threshold") == "self.threshold", "C10.c", f, f"threshold={t.get('threshold')}", "children route with the same threshold", "children use another threshold than their parent")
+        ck.verdict(t.get("estimator") == "clone(dtlr.estimator)", "C10.c", f, f"estimator={t.get('estimator')}", "each child trains a fresh clone of the base estimator", "a child does not get its own clone of dtlr.estimator")
+    helper_names = {f.name for f in nested}
+    builder_calls = calls(fit, lambda c: isinstance(c.func, ast.Name) and c.func.id in helper_names) if nested else [c for _, c in ctor_sites]
+    depth_ok = [cond_text("self.depth + 1 > dtlr.max_depth", False), cond_text("self.depth >= dtlr.max_depth", False), cond_text("self.depth + 1 <= dtlr.max_depth"), cond_text("self.depth < dtlr.max_depth")]
+    split_ok = [cond_text("X.shape[0] < dtlr.min_samples_split", False), cond_text("X.shape[0] >= dtlr.min_samples_split"), cond_text("len(X) >= dtlr.min_samples_split")]
+    for c in builder_calls:
+        conds = conds_at(repo, fit, c)
+        ck.verdict(any(x in conds for x in depth_ok), "C10.c", fit, c, "children are built only where self.depth + 1 <= dtlr.max_depth", f"a child can be built although self.depth + 1 > dtlr.max_depth: the tree can be deeper than max_depth (conditions on every path: {sorted(conds)})")
+        ck.verdict(any(x in conds for x in split_ok), "C10.c", fit, f"min_samples_split guard before {src_of(c)[:40]}", "no split below min_samples_split", "children can be built with fewer than min_samples_split rows")
+    rets = returns(repo, fit)
+    early = [t for r, t in rets[:-1]]
+    ck.verdict(len(rets) >= 2 and all(t == "self.index" for t in early), "C10.c", fit, f"early returns {early}", "a node that does not split returns its own index", "a non-splitting node does not return its own index")
+    if not nested or len(builder_calls) != 2 or len({c.func.id for c in builder_calls}) != 1:
+        ck.unknown("C10.c", fit, "child builder", f"{len(builder_calls)} calls to a nested child builder; shape not understood")
     else:
-        c = ctor[0]
-        d, ix = kwarg(c, "depth"), kwarg(c, "index")
-        ck.verdict(d is not None and src_of(d) == "self.depth + 1", "C10.c", side, f"depth={src_of(d) if d is not None else None}", "child depth is parent depth + 1", "child depth is not self.depth + 1: tree_depth_ and the max_depth guard no longer describe the tree")
-        ck.verdict(ix is not None and src_of(ix) == "index", "C10.c", side, f"index={src_of(ix) if ix is not None else None}", "child gets the index reserved for it", "child index is not the one passed to _fit_side")
-        thr = c.args[1] if len(c.args) > 1 else kwarg(c, "threshold")
-        ck.verdict(thr is not None and src_of(thr) == "self.threshold", "C10.c", side, f"threshold={src_of(thr) if thr is not None else None}", "children route with the same threshold", "children use another threshold")
-        est = c.args[0] if c.args else None
-        e = _assign(side.node, "estimator")
-        ck.verdict(est is not None and src_of(est) == "estimator" and len(e) == 1 and src_of(e[0].value) == "clone(dtlr.estimator)", "C10.c", side, e[0] if e else "estimator = clone(dtlr.estimator)", "each child trains a fresh clone of the base estimator", "a child does not get its own clone of dtlr.estimator")
-    # recursive fit returns the last index; returned pair
-    rets = [src_of(r.value) for r in own_nodes(side.node) if isinstance(r, ast.Return) and r.value is not None]
-    ck.verdict(sorted(rets) == sorted(["(node, last_index)", "(None, index)"]), "C10.c", side, f"returns {rets}", "_fit_side returns (child, last index used) or (None, index)", f"_fit_side returns {rets}")
-    li = _assign(side.node, "last_index")
-    if li:
-        a = [src_of(x) for x in li[0].value.args] if isinstance(li[0].value, ast.Call) else []
-        ck.verdict(src_of(li[0].value.func) == "node.fit" and a == ["X[above_below]", "y[above_below]", "sw", "dtlr", "total_N"], "C10.c", side, li[0], "the child is fitted on its side's rows, targets and weights", f"child fit arguments are {a}")
-        sw = _assign(side.node, "sw")
-        ck.verdict(len(sw) == 1 and src_of(sw[0].value) == "sample_weight[above_below] if sample_weight is not None else None", "C10.c", side, sw[0] if sw else "sw = sample_weight[above_below] ...", "weights follow the rows", "child weights are not sample_weight[above_below]")
-    # the two calls: first index self.index + 1, second last + 1, both sides consistent
-    asg = [s for s in fit.node.body if isinstance(s, ast.Assign) and isinstance(s.value, ast.Call) and src_of(s.value.func) == "_fit_side"]
-    if len(asg) != 2:
-        ck.unknown("C10.c", fit, "_fit_side(...) x2", f"{len(asg)} child constructions")
-    else:
-        a0 = [src_of(x) for x in asg[0].value.args]
-        a1 = [src_of(x) for x in asg[1].value.args]
-        t0, t1 = src_of(asg[0].targets[0]), src_of(asg[1].targets[0])
-        ck.verdict(a0[:4] == ["self.index + 1", "y_above", "above", "n_above"] and t0 == "(self.above, last)", "C10.c", fit, asg[0], "first child: index self.index + 1, the 'above' rows, stored as self.above", f"first child is built with {a0[:4]} into {t0}")
-        ck.verdict(a1[:4] == ["last + 1", "y_below", "below", "n_below"] and t1 == "(self.below, last)", "C10.c", fit, asg[1], "second child: index last + 1, the 'below' rows, stored as self.below", f"second child is built with {a1[:4]} into {t1}: indices may collide or sides be exchanged")
-        last_ret = [s for s in fit.node.body if isinstance(s, ast.Return)]
-        ck.verdict(bool(last_ret) and src_of(last_ret[-1].value) == "last", "C10.c", fit, last_ret[-1] if last_ret else "return last", "fit returns the last index handed out", "node.fit does not return the last index used")
-    for nm, expr in (("y_above", "set(y[above])"), ("y_below", "set(y[below])")):
-        d = _assign(fit.node, nm)
-        ck.verdict(len(d) == 1 and src_of(d[0].value) == expr, "C10.c", fit, d[0] if d else f"{nm} = {expr}", f"{nm} are the labels of its own side", f"{nm} is not {expr}")
+        helper = [f for f in nested if f.name == builder_calls[0].func.id][0]
+        hp = helper.named_params
+        idx_param = None
+        for f, c in ctor_sites:
+            v = bind(c, ipar).get("index")
+            if isinstance(v, ast.Name) and v.id in hp:
+                idx_param = v.id
+        # the helper's returns: (None, index) and (child, child.fit(rows of the side))
+        mask_param = None
+        kinds = []
+        for r in sorted((x for x in own_nodes(helper.node) if isinstance(x, ast.Return)), key=lambda x: x.lineno):
+            x = ex.norm_expr(r.value, helper, r) if r.value is not None else None
+            if not (isinstance(x, ast.Tuple) and len(x.elts) == 2):
+                kinds.append("?")
+                continue
+            e0, e1 = x.elts
+            if isinstance(e0, ast.Constant) and e0.value is None and isinstance(e1, ast.Name) and e1.id == idx_param:
+                kinds.append("none")
+            elif _ctor_of(e0) and isinstance(e1, ast.Call) and isinstance(e1.func, ast.Attribute) and e1.func.attr == "fit" and norm.dump(e1.func.value, rename=False) == norm.dump(e0, rename=False):
+                a = [ast.unparse(norm.canon(v, rename=False)) for v in e1.args]
+                mp = [p for p in hp if a and a[0] == f"X[{p}]"]
+                okf = bool(mp) and a[:2] == [f"X[{mp[0]}]", f"y[{mp[0]}]"] and len(a) == 5 and a[2] in (ctext(f"sample_weight[{mp[0]}] if sample_weight is not None else None"), ctext(f"None if sample_weight is None else sample_weight[{mp[0]}]")) and a[3:] == ["dtlr", "total_N"] and not e1.keywords
+                ck.verdict(okf, "C10.c", helper, r, "the child is fitted on its side's rows, targets and weights, and its last index is returned", f"the child is fitted with {a}, not with (X[mask], y[mask], sample_weight[mask], dtlr, total_N) of its own side")
+                if mp:
+                    mask_param = mp[0]
+                kinds.append("node")
+            else:
+                kinds.append("?")
+        ck.verdict(sorted(kinds) == ["node", "none"] and idx_param is not None, "C10.c", helper, f"returns {kinds}", "the builder returns (child, last index of its subtree) or (None, index unchanged)", f"the child builder's returns are {kinds}: it must return (child, child.fit(...)) or (None, index)")
+        if idx_param is not None and mask_param is not None:
+            first, second = builder_calls
+            b1, b2 = bind(first, hp), bind(second, hp)
+            i1 = ex.text(b1[idx_param], fit, first) if idx_param in b1 else None
+            ck.verdict(i1 == ctext("self.index + 1"), "C10.c", fit, f"first child index = {i1}", "first child gets self.index + 1", f"the first child gets index {i1}, expected self.index + 1: indices collide or leave the range")
+            t1 = ex.text(first, fit, first)
+            i2 = ex.text(b2[idx_param], fit, second) if idx_param in b2 else None
+            ck.verdict(i2 == ctext(f"({t1})[1] + 1"), "C10.c", fit, f"second child index = {src_of(b2[idx_param]) if idx_param in b2 else None}", "second child gets (last index used by the first subtree) + 1", f"the second child's index is {src_of(b2[idx_param]) if idx_param in b2 else None}, not the first subtree's last index + 1: node indices collide or are not below n_nodes_")
+            t2 = ex.text(second, fit, second)
+            last = rets[-1][1] if rets else None
+            ck.verdict(last == ctext(f"({t2})[1]"), "C10.c", fit, rets[-1][0] if rets else "return last", "fit returns the last index handed out in its subtree", "node.fit does not return the last index used by its second subtree")
+            seen_sides = []
+            for call, tc, b in ((first, t1, b1), (second, t2, b2)):
+                mt = ex.text(b[mask_param], fit, call) if mask_param in b else ""
+                k = _classify(mt)
+                side = k[0] if k else None
+                seen_sides.append(side)
+                vals = [t for _, t in self_attr_value_texts(repo, fit, side)] if side else []
+                ck.verdict(side is not None and vals == [ctext(f"({tc})[0]")], "C10.c", fit, call, f"self.{side} is the child built from the rows routed {side}", f"the child built from mask `{mt}` is not stored as self.{side} (sides exchanged or not a routing mask)")
+            ck.verdict(sorted(s or "?" for s in seen_sides) == ["above", "below"], "C10.c", fit, f"children built for {seen_sides}", "one child per side", "the two children are not built from the two sides")
     # n_nodes_
     top = repo.cls(MOD, "DecisionTreeLogisticRegression")
-    fp = top.methods["_fit_parallel"]
-    nn = [s for s in own_nodes(fp.node) if isinstance(s, ast.Assign) and any(is_self_attr(t, "n_nodes_") for t in s.targets)]
-    ok = len(nn) == 1 and isinstance(nn[0].value, ast.BinOp) and isinstance(nn[0].value.op, ast.Add) and src_of(nn[0].value.right) == "1" and src_of(nn[0].value.left).startswith("self.tree_.fit(")
-    ck.verdict(ok, "C10.c", fp, nn[0] if nn else "self.n_nodes_ = self.tree_.fit(...) + 1", "n_nodes_ = last index + 1 (indices start at 0)", "n_nodes_ is not the last index + 1: node indices are not all below n_nodes_")
-    root = [s for s in own_nodes(fp.node) if isinstance(s, ast.Assign) and any(is_self_attr(t, "tree_") for t in s.targets)]
-    ck.verdict(len(root) == 1 and src_of(root[0].value) == f"{NODE}(estimator, 0.5)", "C10.c", fp, root[0] if root else "self.tree_ = ...", "root has the default depth 1 and index 0, threshold 0.5", "root is not built with the default depth/index and threshold 0.5")
-    init = repo.cls(MOD, NODE).methods["__init__"]
+    fp = _root_fit_function(repo, top)
+    nn = self_attr_value_texts(repo, fp, "n_nodes_")
+    fitc = calls(fp, lambda c: src_of(c.func) == "self.tree_.fit")
+    ok = len(nn) == 1 and len(fitc) == 1 and nn[0][1] == ctext(f"{ex.text(fitc[0], fp, fitc[0])} + 1")
+    ck.verdict(ok, "C10.c", fp, nn[0][0] if nn else "self.n_nodes_ = self.tree_.fit(...) + 1", "n_nodes_ = last index + 1 (indices start at 0)", f"n_nodes_ is {nn[0][1] if nn else None}, not the root's last index + 1: node indices are not all below n_nodes_")
+    root = self_attr_value_texts(repo, fp, "tree_")
+    okr = False
+    if len(root) == 1:
+        try:
+            rc = ast.parse(root[0][1], mode="eval").body
+            rb = {k: ast.unparse(v) for k, v in bind(rc, ipar).items()} if _ctor_of(rc) else {}
+            okr = rb.get("estimator") == "clone(self.estimator)" and rb.get("threshold", "0.5") == "0.5" and rb.get("depth", "1") == "1" and rb.get("index", "0") == "0"
+        except SyntaxError:
+            okr = False
+    ck.verdict(okr, "C10.c", fp, root[0][0] if root else "self.tree_ = ...", "root: clone of the estimator, threshold 0.5, depth 1, index 0", f"root is built as {root[0][1] if root else None}")
     defaults = [src_of(d) for d in init.node.args.defaults]
-    ck.verdict(init.named_params[1:] == ["estimator", "threshold", "depth", "index"] and defaults == ["0.5", "1", "0"], "C10.c", init, f"defaults {defaults}", "node defaults: threshold 0.5, depth 1, index 0", f"node defaults are {defaults}")
-    # tree_depth_ and enumerate_leaves_index
-    td = repo.cls(MOD, NODE)
-    el = td.methods["enumerate_leaves_index"]
-    t = src_of(el.node.body[-3].test) if len(el.node.body) >= 3 and isinstance(el.node.body[-3], ast.If) else ""
-    ck.verdict(t == "self.above is None or self.below is None", "C10.c", el, t or "if self.above is None or self.below is None: yield self.index", "a node where some rows stop is listed as terminal", "terminal-node test changed: get_leaves_index no longer lists every node where a path can end")
+    ck.verdict(ipar == ["estimator", "threshold", "depth", "index"] and defaults == ["0.5", "1", "0"], "C10.c", init, f"defaults {defaults}", "node defaults: threshold 0.5, depth 1, index 0", f"node defaults are {defaults}")
+    stores = {a: [t for _, t in self_attr_value_texts(repo, init, a)] for a in ("index", "depth", "threshold", "estimator", "above", "below")}
+    ck.verdict(all(stores[a] == [a] for a in ("index", "depth", "threshold", "estimator")) and stores["above"] == ["None"] and stores["below"] == ["None"], "C10.c", init, f"stores {stores}", "the constructor stores its arguments; no child yet", f"node constructor stores {stores}")
+    # terminal nodes
+    el = ci.methods["enumerate_leaves_index"]
+    own = [y for y in own_nodes_incl_lambda(el.node) if isinstance(y, ast.Yield) and y.value is not None and src_of(y.value) == "self.index"]
+    okl = False
+    conds = frozenset()
+    if len(own) == 1:
+        conds = conds_at(repo, el, own[0])
+        okl = len(conds) == 1 and any(c in conds for c in (cond_text("self.above is None or self.below is None"), cond_text("self.below is None or self.above is None"), cond_text("self.above is not None and self.below is not None", False), cond_text("self.below is not None and self.above is not None", False)))
+    ck.verdict(okl, "C10.c", el, own[0] if own else "yield self.index", "a node where some rows stop (a side without child) is listed as terminal", f"terminal-node test changed (conditions {sorted(conds)}): get_leaves_index no longer lists exactly the nodes where a path can end")
+    for side in ("above", "below"):
+        sub = [n for n in own_nodes_incl_lambda(el.node) if isinstance(n, ast.Call) and src_of(n.func) == f"self.{side}.enumerate_leaves_index"]
+        oks = len(sub) == 1 and conds_at(repo, el, sub[0]) == frozenset({cond_text(f"self.{side} is not None")})
+        if oks:
+            # every element is yielded
+            p = getattr(sub[0], "_parent", None)
+            oks = isinstance(p, ast.YieldFrom) or (isinstance(p, ast.For) and p.iter is sub[0] and len(p.body) == 1 and isinstance(p.body[0], ast.Expr) and isinstance(p.body[0].value, ast.Yield) and src_of(p.body[0].value.value) == src_of(p.target))
+        ck.verdict(oks, "C10.c", el, sub[0] if sub else f"self.{side}.enumerate_leaves_index()", f"terminal nodes of the {side} subtree are all listed", f"the terminal nodes of the {side} subtree are not all enumerated")
+
+
+def _root_fit_function(repo, top) -> FunctionInfo:
+    for name in ("_fit_parallel", "fit"):
+        fi = top.methods.get(name)
+        if fi is not None and calls(fi, lambda c: src_of(c.func) == "self.tree_.fit"):
+            return fi
+    raise AnalysisError("anchor vanished: the function that fits self.tree_")
 
 
 def check_d(ck, repo):
     top = repo.cls(MOD, "DecisionTreeLogisticRegression")
     node = repo.cls(MOD, NODE)
     pr = top.methods["predict"]
-    t = [src_of(s) for s in sorted((x for x in own_nodes(pr.node) if isinstance(x, (ast.Assign, ast.Return))), key=lambda x: x.lineno)]
-    ck.verdict(t == ["labels = self.tree_.predict(X)", "return numpy.take(self.classes_, labels)"], "C10.d", pr, "; ".join(t), "predict = classes_ taken at the node prediction", "predict is not numpy.take(self.classes_, tree_.predict(X))")
+    r = returns(repo, pr)
+    at = r[-1][0] if r else pr.node
+    w = [want(repo, "numpy.take(self.classes_, self.tree_.predict(X))", pr, at), want(repo, "self.classes_[self.tree_.predict(X)]", pr, at), want(repo, "self.classes_.take(self.tree_.predict(X))", pr, at)]
+    ck.verdict(len(r) == 1 and r[0][1] in w, "C10.d", pr, f"return {[t for _, t in r]}", "predict = classes_ taken at the node prediction", f"predict returns {[t for _, t in r]}, not classes_ indexed by tree_.predict(X)")
     np_ = node.methods["predict"]
-    t = [src_of(s) for s in sorted((x for x in own_nodes(np_.node) if isinstance(x, (ast.Assign, ast.Return))), key=lambda x: x.lineno)]
-    ck.verdict(t == ["prob = self.predict_proba(X)", "return (prob[:, 1] >= 0.5).astype(numpy.int32)"], "C10.d", np_, "; ".join(t), "label index = [P(class 1) >= 0.5] from the same probabilities predict_proba returns", "node prediction is not (predict_proba(X)[:, 1] >= 0.5)")
+    r = returns(repo, np_)
+    at = r[-1][0] if r else np_.node
+    w = [want(repo, f"(self.predict_proba(X)[:, 1] >= 0.5).astype({d})", np_, at) for d in ("numpy.int32", "numpy.int64", "int")]
+    ck.verdict(len(r) == 1 and r[0][1] in w, "C10.d", np_, f"return {[t for _, t in r]}", "label index = [P(class 1) >= 0.5] from the same probabilities predict_proba returns", f"node prediction is {[t for _, t in r]}, not (predict_proba(X)[:, 1] >= 0.5)")
     pp = top.methods["predict_proba"]
-    t = [src_of(s) for s in own_nodes(pp.node) if isinstance(s, ast.Return)]
-    ck.verdict(t == ["return self.tree_.predict_proba(X)"], "C10.d", pp, "; ".join(t), "predict_proba is the tree's", "public predict_proba is not tree_.predict_proba(X)")
-    fp = top.methods["_fit_parallel"]
-    cl = [s for s in own_nodes(fp.node) if isinstance(s, ast.Assign) and src_of(s.targets[0]) == "cls"]
-    ck.verdict(len(cl) == 1 and src_of(cl[0].value) == "(y == self.classes_[1]).astype(numpy.int32)", "C10.d", fp, cl[0] if cl else "cls = (y == self.classes_[1])", "the positive class of every node classifier is classes_[1] (probability column 1)", "the binary target is not (y == classes_[1]): probability column 1 and classes_[1] disagree")
+    r = returns(repo, pp)
+    ck.verdict([t for _, t in r] == ["self.tree_.predict_proba(X)"], "C10.d", pp, f"return {[t for _, t in r]}", "predict_proba is the tree's", "public predict_proba is not tree_.predict_proba(X)")
+    fp = _root_fit_function(repo, top)
+    ex = expander(repo)
+    fitc = calls(fp, lambda c: src_of(c.func) == "self.tree_.fit")
+    ok = False
+    a = {}
+    if len(fitc) == 1:
+        b = bind(fitc[0], node.methods["fit"].named_params[1:])
+        a = {k: ex.text(v, fp, fitc[0]) for k, v in b.items()}
+        ok = a.get("X") == "X" and a.get("y") in (ctext("(y == self.classes_[1]).astype(numpy.int32)"), ctext("(y == self.classes_[1]).astype(numpy.int64)"), ctext("(y == self.classes_[1]).astype(int)")) and a.get("sample_weight") == "sample_weight" and a.get("dtlr") == "self" and a.get("total_N") in ("X.shape[0]", "len(X)")
+    ck.verdict(ok, "C10.d", fp, fitc[0] if fitc else "self.tree_.fit(X, (y == classes_[1]), sample_weight, self, n)", "root fitted on (X, [y == classes_[1]], weights): probability column 1 is classes_[1]", f"the root is fitted with {a}: the binary target is not (y == classes_[1]) or the arguments changed, so probability column 1 and classes_[1] disagree")
     fit = top.methods["fit"]
-    c = [s for s in own_nodes(fit.node) if isinstance(s, ast.Assign) and any(is_self_attr(t, "classes_") for t in s.targets)]
-    ck.verdict(len(c) == 1 and src_of(c[0].value) == "numpy.array(sorted(set(y)))", "C10.d", fit, c[0] if c else "self.classes_ = ...", "classes_ are the sorted distinct labels", "classes_ is not the sorted set of labels")
-    e = [s for s in own_nodes(fp.node) if isinstance(s, ast.Assign) and src_of(s.targets[0]) == "estimator"]
-    ck.verdict(len(e) == 1 and src_of(e[0].value) == "clone(self.estimator)", "C10.d", fp, e[0] if e else "estimator = clone(self.estimator)", "the root classifier is a clone of the hyper-parameter", "the root trains the estimator given as hyper-parameter in place")
-    fitc = [c for c in own_nodes_incl_lambda(fp.node) if isinstance(c, ast.Call) and src_of(c.func) == "self.tree_.fit"]
-    ck.verdict(len(fitc) == 1 and [src_of(a) for a in fitc[0].args] == ["X", "cls", "sample_weight", "self", "X.shape[0]"], "C10.d", fp, fitc[0] if fitc else "self.tree_.fit(X, cls, sample_weight, self, X.shape[0])", "root fitted on (X, binary target, weights)", "root fit arguments changed")
+    c = self_attr_value_texts(repo, fit, "classes_")
+    ck.verdict(len(c) == 1 and c[0][1] in ("numpy.array(sorted(set(y)))", "numpy.unique(y)"), "C10.d", fit, c[0][0] if c else "self.classes_ = ...", "classes_ are the sorted distinct labels", "classes_ is not the sorted set of labels")
 
 
 def run(ck):
@@ -212,10 +365,10 @@ def run(ck):
     check_b(ck, repo)
     check_c(ck, repo)
     check_d(ck, repo)
-    ck.require_count("C10.a", 10, "4 predicates, 4 complements, 2 prob sources, guards and counts of the two traversals, sibling agreement")
-    ck.require_count("C10.b", 6, "4 pairs, own index, indices and child calls x2, public allocation")
-    ck.require_count("C10.c", 10, "guards, child construction, index arithmetic, n_nodes_, defaults")
-    ck.require_count("C10.d", 4, "predict, node predict, predict_proba, positive class, classes_, root clone, root fit")
+    ck.require_count("C10.a", 16, "normal-form predicates at 4 sites, complements, probability sources, recursion rows and guards")
+    ck.require_count("C10.b", 6, "4 pairs, own column, child calls, public allocation")
+    ck.require_count("C10.c", 16, "child construction, guards, index arithmetic, n_nodes_, defaults, terminal test")
+    ck.require_count("C10.d", 5, "predict, node predict, predict_proba, positive class / root fit, classes_")
 
 
 _F = "mlinsights/mlmodel/decision_tree_logreg.py"
@@ -225,7 +378,10 @@ WITNESSES = [
     {"name": "fit-route-fixed-half", "file": _F, "rule": "C10.a", "old": "            return self.index\n\n        above = prob[:, 1] > self.threshold\n", "new": "            return self.index\n\n        above = prob[:, 1] > 0.5\n"},
     {"name": "below-not-complement", "file": _F, "rule": "C10.a", "old": "        above = prob[:, 1] > self.threshold\n        below = ~above\n        n_above = above.sum()\n        n_below = below.sum()\n        indices_above", "new": "        above = prob[:, 1] > self.threshold\n        below = prob[:, 1] < self.threshold\n        n_above = above.sum()\n        n_below = below.sum()\n        indices_above"},
     {"name": "path-guard-differs", "file": _F, "rule": "C10.a", "old": "        if self.above is not None and n_above > 0:\n            self.above.decision_path", "new": "        if self.above is not None and n_above > 1:\n            self.above.decision_path"},
+    {"name": "proba-guard-extra-condition", "file": _F, "rule": "C10.a", "old": "        if self.below is not None and n_below > 0:\n            prob_below", "new": "        if self.below is not None and n_below > 0 and n_above > 0:\n            prob_below"},
+    {"name": "proba-child-gets-other-rows", "file": _F, "rule": "C10.a", "old": "self.below.predict_proba(X[below])", "new": "self.below.predict_proba(X[~below])"},
     {"name": "path-mark-after-routing", "file": _F, "rule": "C10.b", "old": "        mat[indices, self.index] = 1\n        prob = self.estimator.predict_proba(X)\n", "new": "        prob = self.estimator.predict_proba(X)\n        mat[indices[prob[:, 1] > 0], self.index] = 1\n"},
+    {"name": "path-mark-conditional", "file": _F, "rule": "C10.b", "old": "        mat[indices, self.index] = 1\n        prob = self.estimator.predict_proba(X)\n", "new": "        if self.above is not None:\n            mat[indices, self.index] = 1\n        prob = self.estimator.predict_proba(X)\n"},
     {"name": "path-wrong-ids", "file": _F, "rule": "C10.b", "old": "        indices_below = indices[below]\n", "new": "        indices_below = indices[above]\n"},
     {"name": "proba-scatter-swapped", "file": _F, "rule": "C10.b", "old": "            prob[below] = prob_below\n", "new": "            prob[above] = prob_below\n"},
     {"name": "child-depth-same", "file": _F, "rule": "C10.c", "old": "estimator, self.threshold, depth=self.depth + 1, index=index", "new": "estimator, self.threshold, depth=self.depth, index=index"},
@@ -234,12 +390,17 @@ WITNESSES = [
     {"name": "n-nodes-no-plus-one", "file": _F, "rule": "C10.c", "old": "self.tree_.fit(X, cls, sample_weight, self, X.shape[0]) + 1", "new": "self.tree_.fit(X, cls, sample_weight, self, X.shape[0])"},
     {"name": "child-no-clone", "file": _F, "rule": "C10.c", "old": "                estimator = clone(dtlr.estimator)\n", "new": "                estimator = dtlr.estimator\n"},
     {"name": "sides-exchanged", "file": _F, "rule": "C10.c", "old": '_fit_side(self.index + 1, y_above, above, n_above, "above")', "new": '_fit_side(self.index + 1, y_above, below, n_above, "above")'},
+    {"name": "helper-returns-own-index", "file": _F, "rule": "C10.c", "old": "                return node, last_index\n", "new": "                return node, node.index\n"},
+    {"name": "leaves-and-instead-of-or", "file": _F, "rule": "C10.c", "old": "        if self.above is None or self.below is None:\n            yield self.index\n", "new": "        if self.above is None and self.below is None:\n            yield self.index\n"},
+    {"name": "root-no-clone", "file": _F, "rule": "C10.c", "old": "        estimator = clone(self.estimator)\n", "new": "        estimator = self.estimator\n"},
     {"name": "predict-gt-half", "file": _F, "rule": "C10.d", "old": "return (prob[:, 1] >= 0.5).astype(numpy.int32)", "new": "return (prob[:, 1] > 0.5).astype(numpy.int32)"},
     {"name": "positive-class-zero", "file": _F, "rule": "C10.d", "old": "cls = (y == self.classes_[1]).astype(numpy.int32)", "new": "cls = (y == self.classes_[0]).astype(numpy.int32)"},
-    {"name": "root-no-clone", "file": _F, "rule": "C10.d", "old": "        estimator = clone(self.estimator)\n", "new": "        estimator = self.estimator\n"},
 ]
 TWINS = [
     {"name": "route-flipped-comparison", "file": _F, "old": "        mat[indices, self.index] = 1\n        prob = self.estimator.predict_proba(X)\n        above = prob[:, 1] > self.threshold\n", "new": "        mat[indices, self.index] = 1\n        prob = self.estimator.predict_proba(X)\n        above = self.threshold < prob[:, 1]\n"},
     {"name": "complement-logical-not", "file": _F, "old": "        above = prob[:, 1] > self.threshold\n        below = ~above\n        n_above = above.sum()\n        n_below = below.sum()\n        indices_above", "new": "        above = prob[:, 1] > self.threshold\n        below = numpy.logical_not(above)\n        n_above = above.sum()\n        n_below = below.sum()\n        indices_above"},
+    {"name": "guards-merged", "file": _F, "old": "        if self.depth + 1 > dtlr.max_depth:\n            return self.index\n        if X.shape[0] < dtlr.min_samples_split:\n            return self.index\n", "new": "        if self.depth + 1 > dtlr.max_depth or X.shape[0] < dtlr.min_samples_split:\n            return self.index\n"},
+    {"name": "predict-index-instead-of-take", "file": _F, "old": "        return numpy.take(self.classes_, labels)\n", "new": "        return self.classes_[labels]\n"},
+    {"name": "mark-own-column-last", "file": _F, "old": "        mat[indices, self.index] = 1\n        prob = self.estimator.predict_proba(X)\n        above = prob[:, 1] > self.threshold\n        below = ~above\n        n_above = above.sum()\n        n_below = below.sum()\n        indices_above = indices[above]\n        indices_below = indices[below]\n        if self.above is not None and n_above > 0:\n            self.above.decision_path(X[above], mat, indices_above)\n        if self.below is not None and n_below > 0:\n            self.below.decision_path(X[below], mat, indices_below)\n", "new": "        prob = self.estimator.predict_proba(X)\n        above = prob[:, 1] > self.threshold\n        below = ~above\n        if self.above is not None and above.sum() > 0:\n            self.above.decision_path(X[above], mat, indices[above])\n        if self.below is not None and below.any():\n            self.below.decision_path(X[below], mat, indices[below])\n        mat[indices, self.index] = 1\n"},
 ]
-MIN_WITNESSES = 14
+MIN_WITNESSES = 18
